@@ -305,6 +305,33 @@ def run(tier: str, seed: int) -> int:
         ops, expect, files_dir = build_ops(seed, tier, d, drv)
         other_cwd = os.path.join(d, "elsewhere")
         os.makedirs(other_cwd)
+        # a crowded working directory: it holds a file named after every string that occurs in a description (inline hex payloads, names, URIs
+        # without a slash, texts ...) - none of them is an input of any command
+        crowded = os.path.join(d, "crowded")
+        os.makedirs(crowded)
+
+        def strings(x):
+            if isinstance(x, str):
+                yield x
+            elif isinstance(x, dict):
+                for k, v in x.items():
+                    yield from strings(k)
+                    yield from strings(v)
+            elif isinstance(x, list):
+                for v in x:
+                    yield from strings(v)
+        ncrowd = 0
+        for op in ops:
+            for t in set(strings(op.get("desc"))):
+                if t and "/" not in t and "\x00" not in t and t not in (".", "..") and len(t.encode()) <= 120:
+                    for name in {t, t.lower(), t.upper()}:
+                        try:
+                            with open(os.path.join(crowded, name), "xb") as fh:
+                                fh.write(b"this file is not an input of the command\n")
+                            ncrowd += 1
+                        except OSError:
+                            pass
+        res.count("crowded-cwd-files", ncrowd)
         histories = []
         # (a) one fresh interpreter per operation
         seeds = ["0", "1", "2", "random"]
@@ -319,6 +346,10 @@ def run(tier: str, seed: int) -> int:
             rng.shuffle(perm)
             histories.append(("permuted", seeds[pidx % 4], perm, other_cwd if pidx % 2 else files_dir))
         histories.append(("reversed", "0", list(reversed(ops)), other_cwd))
+        histories.append(("crowded-cwd", "1", list(ops), crowded))
+        for i, op in enumerate(o for o in ops if o["kind"] in ("create", "create_file")):
+            if i % 3 == 0 or tier == "thorough":
+                histories.append(("crowded-cwd", seeds[i % 4], [op], crowded))
         from concurrent.futures import ThreadPoolExecutor
         def go(h):
             kind, hs, hops, cwd = h[1]
